@@ -382,6 +382,12 @@ func (e *Exec) convert(st *State, x Val, to types.Type) string {
 					return app(e.byte64Fn(k), inner)
 				}
 			}
+			if tb.Kind() == types.Uint8 && strings.HasPrefix(x.T, "(div ") {
+				// byte(x >> k): the plain mod form (identical to what the big-endian models produce)
+				if lo, _, ok := intRange(x.Typ); ok && lo.Sign() == 0 {
+					return "(mod " + x.T + " 256)"
+				}
+			}
 			return wrapTo(x.T, to)
 		case fb.Info()&types.IsInteger != 0 && tb.Info()&types.IsFloat != 0:
 			return "(to_real " + x.T + ")"
